@@ -66,7 +66,8 @@ def check_merge(r, lib, only_order=False):
     if len(ms) != 1:
         return
     from .common import look_through_private
-    b = look_through_private(lib, ms[0])
+    from .. import desugar
+    b = desugar.desugar(lib, look_through_private(lib, ms[0]))
     fn = b.name
     # result local
     res = None
@@ -190,10 +191,12 @@ def iteration_outcomes(b, l, inner, res):
     if outer_item is None or inner_item is None:
         return [], ["shape not recognised: loop items are not bound to variables"]
 
-    def role(t):
-        """which loop item does a term derive from"""
+    def role(t, known=None):
+        """which loop item does a term derive from (`known`: variant/payload facts of the current path)"""
         roles = set()
         for st in mir.subterms(t):
+            if known and st[0] == "local" and ("v", st[1]) in known:
+                roles |= set(known[("v", st[1])][1])
             if st[0] == "local" and st[1] == outer_item:
                 roles.add("outer")
             if st[0] == "local" and st[1] == inner_item:
@@ -231,8 +234,8 @@ def iteration_outcomes(b, l, inner, res):
             if st["k"] == "assign" and not st["place"]["p"]:
                 lcl = st["place"]["l"]
                 rv = st["rv"]
-                if rv["k"] == "agg" and rv.get("adt") == "necessity::Necessity":
-                    bd[("v", lcl)] = (rv["variant"], tuple(sorted(role(term_of(b, rv["ops"][0]))))) if rv["ops"] else (rv["variant"], ())
+                if rv["k"] == "agg" and rv.get("kind") == "adt" and rv.get("variant"):
+                    bd[("v", lcl)] = (rv["variant"], tuple(sorted(role(term_of(b, rv["ops"][0]), bd)))) if rv["ops"] else (rv["variant"], ())
                 elif rv["k"] == "use" and mir.op_place(rv["op"]) is not None and not mir.op_place(rv["op"])["p"] and ("v", mir.op_place(rv["op"])["l"]) in bd:
                     bd[("v", lcl)] = bd[("v", mir.op_place(rv["op"])["l"])]
                 if rv["k"] == "use" and "const" in rv["op"] and "bool" in rv["op"]["const"]:
@@ -281,6 +284,13 @@ def iteration_outcomes(b, l, inner, res):
                 sw2 = mir.switch_enum(b, bb)
                 if sw2 is not None:
                     pt = term_of(b, sw2["place"])
+                    pt0 = strip(pt)
+                    if pt0[0] == "local" and ("v", pt0[1]) in bd and bd[("v", pt0[1])][0] in sw2["variants"]:
+                        # the value was built on this path: only its own variant is feasible
+                        tg = mir.variant_target(sw2, b, bd[("v", pt0[1])][0])
+                        if tg is not None:
+                            stack.append((tg, tuple(sorted(bd.items(), key=lambda kv: str(kv[0]))), frozenset(ev), npushed))
+                            continue
                     if sw2["enum"] == "std::option::Option" and strip(pt)[0] == "call" and len(strip(pt)) > 3 and strip(pt)[3] == inner["next"]:
                         for v in ("Some", "None"):
                             tg = mir.variant_target(sw2, b, v)
@@ -288,7 +298,7 @@ def iteration_outcomes(b, l, inner, res):
                                 stack.append((tg, tuple(sorted(bd.items(), key=lambda kv: str(kv[0]))), frozenset(ev | ({("scan-exhausted",)} if v == "None" else set())), npushed))
                         continue
                     if sw2["enum"] == "necessity::Necessity":
-                        rl = tuple(sorted(role(pt)))
+                        rl = tuple(sorted(role(pt, bd)))
                         for v in sw2["variants"]:
                             tg = mir.variant_target(sw2, b, v)
                             if tg is not None:
